@@ -199,6 +199,138 @@ fn check_shape(rep: &Report, what: &str, blk: &DecodedDctBlock, c: &[[i32; 8]; 8
     }
 }
 
+/// Call histories with *fresh* content: a block whose coefficients the thread has never seen is
+/// first transformed where only part of it (or nothing) lies inside the plane, then again where all
+/// of it is visible - in a later call or later in the same plane - and the other way round. Every
+/// scenario runs on its own new thread with its own coefficient vector; the expected samples are
+/// the same block transformed alone on yet another new thread.
+fn fresh_content_histories(rep: &Report) {
+    #[derive(Clone)]
+    struct Call {
+        w: usize,
+        h: usize,
+        cols: usize,
+        blocks: Vec<DecodedDctBlock>,
+        is_u: Vec<bool>,
+    }
+    let alone = |b: DecodedDctBlock| -> Vec<u8> {
+        std::thread::spawn(move || {
+            let mut out = vec![100u8; 64];
+            let mut blk = [b];
+            let _ = catch(|| idct_channel(&mut blk, &mut out, 1, 8));
+            out
+        })
+        .join()
+        .unwrap_or_default()
+    };
+    let mut n = 0u64;
+    let mut salt = 0u32;
+    for shape in 0..4usize {
+        for v in 0..8usize {
+            for scenario in 0..4usize {
+                salt += 1;
+                let f = |k: u32| -> f32 { (((salt * 37 + k * 101) % 400) as f32) - 200.0 };
+                let vecu: [f32; 8] = [600.0 + f(0), f(1), f(2), 0.0, f(3), 0.0, 0.0, f(4)];
+                let veca: [f32; 8] = [300.0 + f(5), f(6), 0.0, f(7), 0.0, 0.0, f(8), 0.0];
+                let mk = |v8: [f32; 8]| -> DecodedDctBlock {
+                    match shape {
+                        0 => DecodedDctBlock::Horiz(v8),
+                        1 => DecodedDctBlock::Vert(v8),
+                        2 => DecodedDctBlock::Dc(v8[0]),
+                        _ => {
+                            let mut m = [[0f32; 8]; 8];
+                            m[0] = v8;
+                            m[3][2] = v8[1];
+                            DecodedDctBlock::Full(m)
+                        }
+                    }
+                };
+                let (u, a) = (mk(vecu), mk(veca));
+                // the cropped occurrence: v visible columns (rows for the column shape); v = 0 puts
+                // the block entirely outside the plane
+                let vertical = shape == 1;
+                let cropped: Call = if v == 0 {
+                    if vertical {
+                        Call { w: 8, h: 8, cols: 1, blocks: vec![a, u], is_u: vec![false, true] }
+                    } else {
+                        Call { w: 8, h: 8, cols: 2, blocks: vec![a, u], is_u: vec![false, true] }
+                    }
+                } else if vertical {
+                    Call { w: 8, h: v, cols: 1, blocks: vec![u], is_u: vec![true] }
+                } else {
+                    Call { w: v, h: 8, cols: 1, blocks: vec![u], is_u: vec![true] }
+                };
+                let whole = Call { w: 8, h: 8, cols: 1, blocks: vec![u], is_u: vec![true] };
+                let calls: Vec<Call> = match scenario {
+                    0 => vec![cropped.clone(), whole.clone()],
+                    1 => vec![whole.clone(), cropped.clone(), whole.clone()],
+                    2 => {
+                        // one plane: [a, u cropped to v columns / u whole, a cropped] (row shapes), or
+                        // the transposed arrangement for the column shape read in raster order
+                        if v == 0 {
+                            vec![cropped.clone(), cropped.clone(), whole.clone()]
+                        } else if vertical {
+                            vec![Call { w: 16, h: v, cols: 2, blocks: vec![a, u], is_u: vec![false, true] }, Call { w: 16, h: 8, cols: 2, blocks: vec![u, a], is_u: vec![true, false] }]
+                        } else {
+                            vec![Call { w: 8 + v, h: 16, cols: 2, blocks: vec![a, u, u, a], is_u: vec![false, true, true, false] }]
+                        }
+                    }
+                    _ => vec![cropped.clone(), Call { w: 16, h: 16, cols: 2, blocks: vec![a, u, u, a], is_u: vec![false, true, true, false] }],
+                };
+                let (ea, eu) = (alone(a), alone(u));
+                let calls2 = calls.clone();
+                let outs: Vec<Result<Vec<u8>, String>> = std::thread::spawn(move || {
+                    crate::evidence::install_panic_hook();
+                    calls2
+                        .iter()
+                        .map(|c| {
+                            let mut plane = vec![100u8; c.w * c.h];
+                            let mut blocks = c.blocks.clone();
+                            catch(|| idct_channel(&mut blocks, &mut plane, c.cols, c.w)).map(|_| plane)
+                        })
+                        .collect()
+                })
+                .join()
+                .unwrap_or_default();
+                n += calls.len() as u64;
+                let names = ["row-only", "column-only", "DC-only", "two-dimensional"];
+                for (ci, (c, o)) in calls.iter().zip(outs.iter()).enumerate() {
+                    let plane = match o {
+                        Ok(p) => p,
+                        Err(p) => {
+                            rep.violation(&panic_sig(p), format!("fresh-content history ({} block, {v} visible, scenario {scenario}), call {ci}: {p}", names[shape]), json!({"kind": "idct-history", "shape": shape, "visible": v, "scenario": scenario}));
+                            break;
+                        }
+                    };
+                    let mut bad = None;
+                    'scan: for y in 0..c.h {
+                        for x in 0..c.w {
+                            let k = (y / 8) * c.cols + x / 8;
+                            let want = if c.is_u[k] { &eu } else { &ea };
+                            if plane[y * c.w + x] != want[(y % 8) * 8 + x % 8] {
+                                bad = Some((x, y, plane[y * c.w + x], want[(y % 8) * 8 + x % 8]));
+                                break 'scan;
+                            }
+                        }
+                    }
+                    if let Some((x, y, got, want)) = bad {
+                        rep.violation_lazy(&format!("C10/result-depends-on-earlier-blocks-of-the-thread[{}]", names[shape]), || {
+                            (
+                                format!("a {} block first met with {v} visible lines, scenario {scenario}: call {ci} ({}x{} plane, {} block columns): sample ({x},{y}) is {got}, the block transformed alone on a new thread gives {want}", names[shape], c.w, c.h, c.cols),
+                                json!({"kind": "idct-history", "shape": shape, "visible": v, "scenario": scenario, "coefficients": vecu.to_vec()}),
+                            )
+                        });
+                        break;
+                    }
+                }
+            }
+        }
+    }
+    rep.add_transitions(n);
+    rep.add_states(n);
+    rep.extra("fresh_content_history_calls", json!(n));
+}
+
 pub fn run(tier: Tier) -> Report {
     let rep = Report::new("C10", "idct", tier);
     // zero in -> zero out
@@ -528,9 +660,10 @@ pub fn run(tier: Tier) -> Report {
         rep.add_states(dims.len() as u64);
         rep.extra("clipped_plane_geometries", json!(dims.len()));
     }
+    fresh_content_histories(&rep);
     rep.extra("off_by_one_outside_rounding_band_informational", json!(info.load(std::sync::atomic::Ordering::Relaxed)));
     rep.set_rule(&format!(
-        "Annex A procedure verbatim for generator seeds {:?}: 10000 blocks for each of (-256..255), (-5..5), (-300..300) and their negations, forward DCT in f64, rounded, clipped, through idct_channel (hook) as Full blocks, against the f64 inverse; all 4096 Dc blocks; Horiz/Vert: all single-entry vectors over -2048..2047, all two-entry vectors over a 15-value boundary set, dense vectors from the same generator; general blocks with two or three large coefficients (all position pairs x boundary values, row/column pairs plus a third) and sparse full-range blocks; all sequences of 4 (thorough 5) blocks over a 9-letter block alphabet in one plane, in two layouts, each block compared with the same block transformed alone; every assignment of 0, 255 or 100 to the rows and to the columns of the prediction under each letter (the residual is added to whatever the plane holds); planes of every size 1..26 (thorough 40) squared and around every power of two to 32768 whose last block column / row is clipped, every sample compared with the block transformed alone; each block is transformed over prediction 0 and 255 to observe residuals -255..255 (-256 is observable only as <= -255); non-trivial = sparse-shape blocks",
+        "Annex A procedure verbatim for generator seeds {:?}: 10000 blocks for each of (-256..255), (-5..5), (-300..300) and their negations, forward DCT in f64, rounded, clipped, through idct_channel (hook) as Full blocks, against the f64 inverse; all 4096 Dc blocks; Horiz/Vert: all single-entry vectors over -2048..2047, all two-entry vectors over a 15-value boundary set, dense vectors from the same generator; general blocks with two or three large coefficients (all position pairs x boundary values, row/column pairs plus a third) and sparse full-range blocks; all sequences of 4 (thorough 5) blocks over a 9-letter block alphabet in one plane, in two layouts, each block compared with the same block transformed alone; every assignment of 0, 255 or 100 to the rows and to the columns of the prediction under each letter (the residual is added to whatever the plane holds); planes of every size 1..26 (thorough 40) squared and around every power of two to 32768 whose last block column / row is clipped, every sample compared with the block transformed alone; call histories on new threads in which a block with coefficients the thread has never seen is first met with 0..7 visible lines and then whole (later call, or later in the same plane), for the four block shapes; each block is transformed over prediction 0 and 255 to observe residuals -255..255 (-256 is observable only as <= -255); non-trivial = sparse-shape blocks",
         seeds
     ));
     rep.sample(json!({"annex_a": "seed 1, range -256..255, block 0: 64 generated samples -> fdct -> Full block"}));
